@@ -299,17 +299,3 @@ pub mod wmx {
         ecs_archetype!(ArchPp, Plain);
     }
 }
-
-/// WZZ: an archetype whose ONLY column is zero-sized (no component allocation at all).
-pub mod wzz {
-    use gecs::prelude::*;
-
-    #[derive(Clone, Copy, PartialEq, Debug)]
-    pub struct Zu;
-
-    ecs_world! {
-        ecs_name!(WZZ);
-        #[archetype_id(77)]
-        ecs_archetype!(ArchZz, Zu);
-    }
-}
